@@ -5,6 +5,7 @@ CONSTANTS
   MB = 2
   BES = {1}
   GAPS = TRUE
+  COVER = FALSE
   LMIN = 1
   LMAX = 2
   STALL = 1
